@@ -72,6 +72,10 @@ func c05One(c *bx.Ctx, v ref.V) {
 				if len(r.Chunks)%2 == 1 {
 					cls = "odd-rle-chunks"
 				}
+			case *rtcp.UnknownReportBlock:
+				if len(r.Bytes)%4 != 0 {
+					cls = "unknown-block-unaligned-bytes"
+				}
 			}
 		}
 	}
